@@ -3,6 +3,8 @@ CONSTANTS
   SwapAmts = {1, 4, 9}
   BurnAmts = {1, 3}
   MinLiqM = 2
+  Scale = 1
+  Protect = FALSE
 SPECIFICATION Spec
 VIEW View
 INVARIANT C01_Backed
